@@ -93,6 +93,7 @@ def run(prog, rep, tier, cfg):
         X.guard('K6b', 'update:balance-covered', C, W, m_rel('gt', ['F:State.to_send', 'F:%s.amount' % SV], ['C:Runtime::current_balance'], False), 'new_send_balance > current_balance => Err')
         X.value_from('K10', 'update:to_send-value', C, X.stmt_rvalue_atoms(C, 'State', 'to_send', narrow=False),
                      ['F:%s.amount' % SV, 'F:LaneState.redeemed', 'F:State.to_send', 'C:::sub', 'C:::add'], 'to_send = amount - (redeemed on lane + merged lanes) + to_send')
+        X.accumulates('K10', 'update:merged-redeemed-summed', C, ['F:LaneState.redeemed'], 'redeemed amounts of all merged lanes are summed')
         X.value_from('K10', 'update:lane.nonce', C, [x for x in X.stmt_rvalue_atoms(C, 'LaneState', 'nonce') if not has_atom(x[1], 'F:Merge.nonce')], ['F:%s.nonce' % SV], 'lane nonce := voucher nonce', copy=True)
         X.value_from('K10', 'update:merged.nonce', C, [x for x in X.stmt_rvalue_atoms(C, 'LaneState', 'nonce') if has_atom(x[1], 'F:Merge.nonce')], ['F:Merge.nonce'], 'merged lane nonce := merge nonce', copy=True)
         X.value_from('K10', 'update:lane.redeemed', C, X.stmt_rvalue_atoms(C, 'LaneState', 'redeemed'), ['F:%s.amount' % SV], 'lane redeemed := voucher amount', copy=True, forbid=['F:LaneState.redeemed'])
